@@ -221,7 +221,13 @@ func (p *TxProcessor) checkSignersWeight(sender common.Address, tx *types.Transa
 		signersMap := accSigners.ToSignerMap()
 		// 计算签名者权重总和
 		var totalWeight int64 = 0
+		// every signer is counted once, no matter how many of his signatures are in the transaction
+		counted := make(map[common.Address]bool, len(signers))
 		for _, addr := range signers {
+			if counted[addr] {
+				continue
+			}
+			counted[addr] = true
 			if w, ok := signersMap[addr]; ok {
 				totalWeight = totalWeight + int64(w)
 			}
